@@ -190,7 +190,17 @@ def run_case(idx, rng, tier, ctx):
             toks, comments = token_stream(out)
             ref_toks, ref_comments = refs[sname]
             res['counters']['tokens_compared'] += len(toks)
-            if toks != ref_toks:
+            lone = next((i for i, l in enumerate(olines) if l.strip() == '&'), None)
+            if lone is not None and toks != ref_toks:
+                # a continuation line that holds only an ampersand: find the statement it belongs to
+                j = lone
+                while j > 0 and split_comment(olines[j - 1])[0].rstrip().endswith('&'):
+                    j -= 1
+                kw = re.match(r'\s*(?:\w+:\s*)?([A-Za-z]+)', olines[j])
+                viol.append({'key': f"linewrap:continuation-line-holding-only-ampersand:{kw.group(1).upper() if kw else '?'}",
+                             'msg': f'width {W} style {sname}: ' + ' | '.join(x.strip() for x in olines[j:lone + 2])[:300],
+                             'witness': {'source': src, 'width': W, 'wrapped': out}})
+            elif toks != ref_toks:
                 k = next((i for i, (a, b) in enumerate(zip(toks, ref_toks)) if a != b), min(len(toks), len(ref_toks)))
                 a = toks[k] if k < len(toks) else '<end>'
                 b = ref_toks[k] if k < len(ref_toks) else '<end>'
